@@ -1,8 +1,8 @@
 package main
 
 import (
-	"strings"
 	"fmt"
+	"strings"
 
 	sio "github.com/pip-services3-gox/pip-services3-expressions-gox/io"
 )
@@ -10,10 +10,11 @@ import (
 // C11: the string scanner is a faithful cursor.
 //
 // Generators:
-//  (i)  exhaustive exploration of the implementation's own state graph for every content up to
-//       a bound over {x, LF, CR}: breadth-first over the observable state (cursor, Line, Column);
-//       from every state every operation is applied and the transition logged with all observers.
-//  (ii) seeded random walks over random contents with all four line-break styles.
+//
+//	(i)  exhaustive exploration of the implementation's own state graph for every content up to
+//	     a bound over {x, LF, CR}: breadth-first over the observable state (cursor, Line, Column);
+//	     from every state every operation is applied and the transition logged with all observers.
+//	(ii) seeded random walks over random contents with all four line-break styles.
 func init() {
 	props["C11"] = &Prop{
 		Generate: genC11,
